@@ -846,6 +846,17 @@ static bool is_circle(const Array<Vec2> point_array, double tolerance, Vec2& cen
         }
         const Vec2 v0 = *last - center;
         const Vec2 v1 = *pt - center;
+        // The edges, not only the vertices, must stay within tolerance of the
+        // circle: closest approach of the edge to the center
+        const Vec2 edge = v1 - v0;
+        const double edge_length_sq = edge.length_sq();
+        double t = edge_length_sq > 0 ? -v0.inner(edge) / edge_length_sq : 0;
+        if (t < 0) {
+            t = 0;
+        } else if (t > 1) {
+            t = 1;
+        }
+        if (radius - (v0 + t * edge).length() >= tolerance) return false;
         swept_angle += atan2(v0.cross(v1), v0.inner(v1));
         last = pt++;
     }
